@@ -578,6 +578,58 @@ type job struct {
 	ops  []op
 }
 
+// revokeWindowProbe: a member resigns (ResetLeader -> lease.Close()); the revocation of its lease is applied by etcd
+// (the leader record is gone with it) but the call has not returned yet. From that moment on another member may win:
+// the resigning member must already answer Check() = false and IsLeader() = false (Close() zeroes the expiry first).
+func revokeWindowProbe(R *res.Result) {
+	e, err := etcdx.StartOpt(50, 500)
+	if err != nil {
+		R.Notes = append(R.Notes, "revoke-window probe skipped: "+err.Error())
+		return
+	}
+	defer e.Close()
+	admin, _, err := e.NewClient()
+	if err != nil {
+		R.Notes = append(R.Notes, "revoke-window probe skipped: "+err.Error())
+		return
+	}
+	w := &world{e: e, admin: admin, root: "/c03/revoke", known: map[clientv3.LeaseID]bool{}, short: map[int]time.Time{}}
+	for i := 0; i < 2; i++ {
+		w.mems = append(w.mems, w.newMember(i))
+	}
+	a, b := w.mems[0], w.mems[1]
+	if err := a.m.CampaignLeader(60); err != nil {
+		R.Notes = append(R.Notes, "revoke-window probe skipped: campaign: "+err.Error())
+		return
+	}
+	a.m.EnableLeader()
+	a.keep.HoldRevoke()
+	done := make(chan struct{})
+	go func() { a.m.ResetLeader(); close(done) }()
+	select {
+	case <-a.keep.RevokeHeld():
+	case <-done: // the revocation failed or was not attempted: nothing to observe
+		R.Notes = append(R.Notes, "revoke-window probe: ResetLeader returned without a held revocation")
+		return
+	case <-time.After(5 * time.Second):
+		R.Notes = append(R.Notes, "revoke-window probe: revocation not seen")
+		return
+	}
+	R.Count("revoke-window:probed")
+	check, isLeader := a.m.GetLeadership().Check(), a.m.IsLeader()
+	berr := b.m.CampaignLeader(60)
+	if berr == nil {
+		b.m.EnableLeader()
+	}
+	if check || isLeader {
+		R.Violate("C03:resigning-member-still-valid-after-its-lease-was-revoked",
+			fmt.Sprintf("member 0 resigns; etcd has applied the revocation of its lease (leader record gone) and the Revoke call has not returned yet: Check() = %v, IsLeader() = %v; member 1 campaigned meanwhile: %v; IsLeader() of member 1 = %v", check, isLeader, berr, b.m.IsLeader()),
+			map[string]interface{}{"check": check, "is_leader": isLeader, "other_member_won": berr == nil})
+	}
+	a.keep.ReleaseRevoke()
+	<-done
+}
+
 func main() {
 	seed := flag.Uint64("seed", 1, "")
 	n := flag.Int("n", 200, "number of generated cases")
@@ -633,6 +685,9 @@ func main() {
 			r := master.Fork(uint64(k))
 			add(2+r.Intn(2), genCase(r, 3, r.Pct(*expiryPct), 30))
 		}
+	}
+	if *replay == "" {
+		revokeWindowProbe(R)
 	}
 	results := make([]*caseRec, len(jobs))
 	ch := make(chan job)
